@@ -99,9 +99,14 @@ def _unstable_paths(fn) -> set:
     mod = getattr(fn, "_module", None)
     tree = getattr(mod, "tree", None)
     if tree is not None:
-        for g in ast.walk(tree):
-            if isinstance(g, ast.Global):
-                out.update(g.names)
+        cached = getattr(mod, "_global_rebound", None)
+        if cached is None:
+            cached = set()
+            for g in ast.walk(tree):
+                if isinstance(g, ast.Global):
+                    cached.update(g.names)
+            mod._global_rebound = cached
+        out |= cached
     cls = getattr(fn, "_parent", None)
     while cls is not None and not isinstance(cls, ast.ClassDef):
         cls = getattr(cls, "_parent", None)
@@ -125,6 +130,9 @@ def substitute_function(fn) -> int:
     if a.kwarg:
         params.add(a.kwarg.arg)
     done = 0
+    if not any(isinstance(n, ast.Assign) and len(n.targets) == 1 and isinstance(n.targets[0], ast.Name) and _is_path(n.value) for n in _own_nodes(fn)):
+        return 0
+    unstable = _unstable_paths(fn)
     for _ in range(8):
         counts = {}
         cand = {}
@@ -157,7 +165,6 @@ def substitute_function(fn) -> int:
                         if isinstance(x, ast.Name):
                             counts[x.id] = counts.get(x.id, 0) + 2
         stored = _stored_paths(fn)
-        unstable = _unstable_paths(fn)
         selfname = (func_params(fn) or ["self"])[0]
         nested_names = {x.id for sc in _nested_scopes(fn) for x in ast.walk(sc) if isinstance(x, ast.Name)}
         chosen = None
